@@ -12,6 +12,7 @@ import NutsProofs.Lemmas.C10Shelves
 import NutsProofs.Lemmas.C10Backend
 import NutsProofs.Lemmas.C10Docs
 import NutsProofs.Lemmas.C10Read
+import NutsProofs.Lemmas.C10Cache
 
 namespace Nuts.C10.Props
 open Nuts.C10
@@ -1078,6 +1079,57 @@ example : (match sAddAll cfg0 {} [evB, evA, evCreate] with
       (List.range 7).map (fun k => match sResolveF st (some { time := some 15 }) k with
         | .err e => e | .ok (_, m) => toString m.version | .panic e => e) ==
         ["0", "db", "db", "db", "db", "db", "0"]
+    | _ => false) = true := by decide
+
+/-! ### the in-memory conflicted cache under a rolled-back second write transaction (NutsModel/C10/Cache.lean)
+
+`applyFrom` updates `store.conflictedDocuments` inside the closure of the write transaction. A transaction that is rolled
+back after the closure ran leaves the shelves as they were, but not the map. -/
+
+/-- a rolled-back Add leaves every shelf and both statistics as they were -/
+theorem rolled_back_add_keeps_the_shelves (cfg : Cfg) (s t : Store) (e : Event) (h : addRolledBack cfg s e = .ok t) :
+    t.dids = s.dids ∧ t.conflictedCount = s.conflictedCount ∧ t.documentCount = s.documentCount ∧
+      ∀ id rm, resolve t id rm = resolve s id rm := by
+  obtain ⟨h1, h2, h3⟩ := rolled_back_keeps cfg s t e h
+  refine ⟨h1, h2, h3, fun id rm => ?_⟩
+  simp only [resolve, Store.get, h1]
+
+/-- **the re-delivery of a rolled-back transaction is exactly the undisturbed Add**: whatever the rolled-back attempt left
+    in the in-memory map, delivering the same transaction again ends in the very state (shelves, statistics AND cache)
+    that a single undisturbed Add produces — for every store state, reachable or not -/
+theorem redelivery_after_rollback_is_the_undisturbed_add (cfg : Cfg) (s t : Store) (e : Event)
+    (h : addRolledBack cfg s e = .ok t) : add cfg t e = add cfg s e := redelivery cfg s t e h
+
+/-- **Stale cache entries are confined and repaired, for every history.** Take ANY sequence of deliveries, each either
+    committed or rolled back after `applyFrom` ran (any DIDs, any order, duplicates, the same transaction rolled back many
+    times). The store it ends in has exactly the shelves and statistics of the run that only saw the committed deliveries,
+    and `Conflicted()` answers the same for every key except those `dirtyAll` lists: keys touched by a rolled-back Add that
+    no later committed Add touched again. Re-opening the store repairs those as well. -/
+theorem stale_cache_entries_are_confined_and_repaired (cfg : Cfg) (l : List (Event × Bool)) (t : Store)
+    (h : addAllRb cfg {} l = .ok t) :
+    ∃ u, addAll cfg {} (committed l) = .ok u ∧ t.dids = u.dids ∧ t.conflictedCount = u.conflictedCount ∧
+      t.documentCount = u.documentCount ∧
+      (∀ k, k ∉ dirtyAll cfg {} [] l → alGet t.cache k = alGet u.cache k) ∧ reload t = reload u := by
+  obtain ⟨u, h1, h2, h3, h4, h5⟩ := rb_run cfg l {} {} [] t rfl rfl rfl (fun _ _ => rfl) h
+  refine ⟨u, h1, h2, h3, h4, h5, ?_⟩
+  simp only [reload, h2, h3, h4]
+
+/-- **Witness that the staleness is real** (why the theorem above needs `dirtyAll`): create, update A, then the parallel
+    update B whose second write transaction is rolled back — `Conflicted()` lists the DID although its latest stored
+    version is not conflicted and `ConflictedCount()` is 0; after the re-delivery of B cache, flag and counter agree. -/
+theorem rolled_back_add_leaves_stale_cache_witness :
+    (match addAllRb cfg0 {} [(evCreate, false), (evA, false), (evB, true)],
+           addAllRb cfg0 {} [(evCreate, false), (evA, false), (evB, true), (evB, false)] with
+     | .ok t, .ok t2 =>
+       (conflictedOf t "did:nuts:x").isSome && !(t.get "did:nuts:x").conflicted && t.conflictedCount == 0 &&
+       dirtyAll cfg0 {} [] [(evCreate, false), (evA, false), (evB, true)] == ["did:nuts:x"] &&
+       (conflictedOf t2 "did:nuts:x").isSome && (t2.get "did:nuts:x").conflicted && t2.conflictedCount == 1 &&
+       dirtyAll cfg0 {} [] [(evCreate, false), (evA, false), (evB, true), (evB, false)] == []
+     | _, _ => false) = true := by decide
+
+/-! non-vacuity of `redelivery_after_rollback_is_the_undisturbed_add` / `rolled_back_add_keeps_the_shelves` -/
+example : (match addAll cfg0 {} [evCreate, evA] with
+    | .ok s => (match addRolledBack cfg0 s evB with | .ok t => t.cache.length == 1 && s.cache.length == 0 | _ => false)
     | _ => false) = true := by decide
 
 end Nuts.C10.Props
